@@ -62,9 +62,7 @@ Next == Whiten
 Spec == Init /\ [][Next]_vars
 
 n == N
-CC == CMat(c.x, D)
-DL == Delta(c.x, c.y, D)
-PP == LET f(j, k) == (n - 1) * CC[j][k] - DL[j] * DL[k] IN Mat(D, f)
+PMat(cc, dl) == LET f(j, k) == (n - 1) * cc[j][k] - dl[j] * dl[k] IN Mat(D, f)
 Near(a, b, tol) == a - b <= tol /\ b - a <= tol
 
 \* ---- tables ---------------------------------------------------------------------------------------
@@ -82,7 +80,10 @@ ASSUME Tables == TablesHold
 
 \* ---- the unbiased estimator -------------------------------------------------------------------------
 Pow1(b, e) == IF e = 0 THEN 1 ELSE b
-DetLemma == Det(PP, D) = Pow1(n - 1, D - 1) * ((n - 1) * Det(CC, D) - AdjQuad(CC, DL, D))
+DetLemma ==
+  LET cc == CMat(c.x, D)
+      dl == Delta(c.x, c.y, D)
+  IN Det(PMat(cc, dl), D) = Pow1(n - 1, D - 1) * ((n - 1) * Det(cc, D) - AdjQuad(cc, dl, D))
 ScatterIsScaledCov ==
   LET r == GoLikV(c, Coef, CheckPD)
       r0 == GoLikV(c, 0, CheckPD)       \* coefficient 0: log|M| replaced by log|S|
@@ -94,11 +95,16 @@ ScatterIsScaledCov ==
        r.t - r0.t = e1 * (D * LogNatMicro(nn) - D * LogNatMicro(n * c.s * c.s))
 UnbiasedSupport ==
   LET r == GoLikV(c, Coef, CheckPD)
-  IN r.lat => (r.fin <=> (PosDef(CC, D) /\ AdjQuad(CC, DL, D) < (n - 1) * Det(CC, D) /\ PosDef(PP, D)))
+      cc == CMat(c.x, D)
+      dl == Delta(c.x, c.y, D)
+  IN r.lat => (r.fin <=> (PosDef(cc, D) /\ AdjQuad(cc, dl, D) < (n - 1) * Det(cc, D) /\ PosDef(PMat(cc, dl), D)))
 \* for positive definite C the two descriptions of the support agree
 SupportIffQuad ==
-  (PosDef(CC, D) /\ Det(PP, D) # 0 /\ \A j \in 1..D : PP[j][j] # 0) =>
-     (PosDef(PP, D) <=> AdjQuad(CC, DL, D) < (n - 1) * Det(CC, D))
+  LET cc == CMat(c.x, D)
+      dl == Delta(c.x, c.y, D)
+      pp == PMat(cc, dl)
+  IN (PosDef(cc, D) /\ Det(pp, D) # 0 /\ \A j \in 1..D : pp[j][j] # 0) =>
+       (PosDef(pp, D) <=> AdjQuad(cc, dl, D) < (n - 1) * Det(cc, D))
 
 \* ---- whitening ----------------------------------------------------------------------------------------
 AbsI(v) == IF v < 0 THEN -v ELSE v
@@ -126,8 +132,7 @@ ZeroGamma ==
   IN /\ VarAdjLik(c, Zero) = a
      /\ m.lat => m = [a EXCEPT !.q = m.q] /\ QEq(m.q, a.q)
 VarAdjFlatter ==
-  \A g \in [1..D -> 0..1] :
-    LET a == StdLik(c, <<>>, 1, NoShrink)
-        v == VarAdjLik(c, g)
-    IN (a.lat /\ v.lat) => (v.t >= a.t /\ ~QLess(a.q, v.q))
+  LET a == StdLik(c, <<>>, 1, NoShrink)
+  IN a.lat => \A g \in (IF D = 1 THEN {<<1>>, <<2>>} ELSE {<<1, 0>>, <<1, 2>>}) :
+       LET v == VarAdjLik(c, g) IN v.lat => (v.t >= a.t /\ ~QLess(a.q, v.q))
 =============================================================================
